@@ -10,6 +10,7 @@ import (
 	"reflect"
 	"sort"
 
+	"github.com/go-critic/go-critic/checkers/rulesdata"
 	"github.com/go-critic/go-critic/linter"
 )
 
@@ -233,6 +234,13 @@ func RegistryFP() uint64 {
 		}
 		sort.Strings(ps)
 		put(fmt.Sprint(ps))
+	}
+	// the shipped rule data the embedded checkers are built from
+	if f := rulesdata.PrecompiledRules; f != nil {
+		put(fmt.Sprint(len(f.RuleGroups)))
+		for _, g := range f.RuleGroups {
+			put(fmt.Sprintf("%s/%d/%v/%s", g.Name, len(g.Rules), g.DocTags, g.DocSummary))
+		}
 	}
 	return h.Sum64()
 }
